@@ -18,6 +18,7 @@
 (*   Coherent     the bookkeeping equals the fresh view of the bytes       *)
 (*   FlagSound    "no pointer" is only claimed for pointer-free bytes      *)
 (*   CursorSound  an open, live cursor designates a record of its section  *)
+(*   CacheSound   a filled question cache holds the question of the bytes  *)
 (* Action property (C09 / C10):                                            *)
 (*   Effect       every step changes the decoded message exactly as the    *)
 (*                operation says (History's WithSec / RemoveAt / Append),  *)
@@ -39,10 +40,10 @@ Renames == << [t |-> <<2, 122, 122, 0>>, s |-> <<1, 97, 0>>, x |-> TRUE],
 Secs == {"Q", "AN", "NS", "AR", "E"}          \* "E": the EDNS options
 NoCur == [open |-> FALSE, sec |-> "Q", incl |-> FALSE, c |-> [off |-> 0, ne |-> 0, nx |-> 0, tomb |-> TRUE]]
 
-VARIABLES p, v, cur, n, last
-mvars == <<p, v, cur, n, last, i, done>>
+VARIABLES p, v, cur, n, last, cq        \* cq: the cached question, <<>> or <<value>>
+mvars == <<p, v, cur, n, last, cq, i, done>>
 
-MCInit == /\ i = 0 /\ done = 0 /\ n = 0 /\ cur = NoCur /\ last = [op |-> "init", ok |-> TRUE, sec |-> "Q", idx |-> 0, arg |-> 0, before |-> <<>>]
+MCInit == /\ i = 0 /\ done = 0 /\ n = 0 /\ cur = NoCur /\ cq = <<>> /\ last = [op |-> "init", ok |-> TRUE, sec |-> "Q", idx |-> 0, arg |-> 0, before |-> <<>>]
           /\ \E kk \in 1..NS1, lay \in {"plain", "greedy", "tails"} :
                /\ p = Encode(Msg(Index(kk)), lay)
                /\ v = ViewMC(p, lay # "plain")
@@ -56,6 +57,8 @@ Adopt(pr, op, sec, arg, cnew) ==
   /\ cur' = cnew
   /\ last' = [op |-> op, ok |-> pr.ok, sec |-> sec, idx |-> IF cur.open /\ ~cur.c.tomb THEN IdxOf(p, sec, cur.c.off) ELSE 0, arg |-> arg, before |-> p]
   /\ n' = n + 1 /\ UNCHANGED <<i, done>>
+  \* the cache keeps its value unless the operation resets it (the question getters fill it: ReadQ)
+  /\ cq' = IF CacheFilledAfter(op, pr.ok, cq # <<>>, v.mc, QD(p) = 1) THEN cq ELSE <<>>
 
 \* a fresh reader is a cursor without a current record: its first next() reads the section's count and offset
 Open(sec, incl) ==
@@ -95,9 +98,15 @@ Ren(k) ==
   /\ LET pr == ObjRename(p, Renames[k].t, Renames[k].s, Renames[k].x) IN
      Adopt([ok |-> pr.ok, p |-> pr.p, v |-> IF pr.ok THEN pr.v ELSE v], "ren", "Q", k, NoCur)
 
+\* question(), question_raw0(), question_raw(): fill the cache from the bytes
+ReadQ == /\ ~cur.open /\ QD(p) = 1 /\ cq = <<>>
+         /\ cq' = <<CacheOf(p)>>
+         /\ last' = [op |-> "readq", ok |-> TRUE, sec |-> "Q", idx |-> 0, arg |-> 0, before |-> p]
+         /\ n' = n + 1 /\ UNCHANGED <<p, v, cur, i, done>>
+
 MCNext == /\ n < MaxOps
           /\ \/ \E sec \in Secs, incl \in BOOLEAN : (incl => sec = "AR") /\ Open(sec, incl)
-             \/ Advance \/ Close \/ Del \/ Unc \/ Ttl \/ Recompute
+             \/ Advance \/ Close \/ Del \/ Unc \/ Ttl \/ Recompute \/ ReadQ
              \/ \E a \in 1..Len(NewNames) : SetName(a)
              \/ \E sec \in Secs, r \in 1..Len(NewRecs) : Ins(sec, r)
              \/ \E k \in 1..Len(Renames) : Ren(k)
@@ -111,6 +120,9 @@ CursorSound == (cur.open /\ ~cur.c.tomb) =>
                  /\ IdxOf(p, cur.sec, cur.c.off) # 0
                  /\ cur.c = IF cur.sec = "E" THEN OptionAt(p, cur.c.off) ELSE CursorAtC(p, cur.sec, cur.c.off)
                  /\ (cur.sec = "AR" /\ ~cur.incl => U16(p, cur.c.ne) # TOPT \/ last.op \in {"set", "unc", "ttl"})
+
+\* a filled cache holds the question of the bytes
+CacheSound == cq # <<>> => QD(p) = 1 /\ cq[1] = CacheOf(p)
 
 \* the decoded message after the last step, given the one before
 Effect ==
